@@ -37,6 +37,25 @@ func main() {
 				fmt.Println(funcKey(f))
 			}
 		}
+	case "mods":
+		w, err := loadWorld("/repo")
+		if err != nil {
+			fmt.Fprintln(os.Stderr, err)
+			os.Exit(2)
+		}
+		sp := loadSpecs(w, "/verif")
+		ms := newModSets(w, sp)
+		for _, k := range os.Args[2:] {
+			fn := w.Funcs[k]
+			if fn == nil {
+				fmt.Println("no such function", k)
+				continue
+			}
+			fmt.Println(k, ":")
+			for _, m := range sortedKeys(ms.total[fn]) {
+				fmt.Println("   ", m)
+			}
+		}
 	case "check":
 		os.Exit(cmdCheck(os.Args[2:]))
 	default:
